@@ -351,7 +351,7 @@ func flipCase(s string) string {
 // --- sequences of edits, each followed by an encoding ---------------------------------
 
 type c19Step struct {
-	Kind int    `json:"kind"` // 0 in-place element assignment, 1 in-place case flip, 2 replace the slice, 3 append, 4 delete, 5 put the original names back
+	Kind int    `json:"kind"` // 0 in-place element assignment, 1 in-place case flip, 2 replace the slice, 3 append, 4 delete, 5 put the original names back, 6 decode the original bytes into the same object again, 7 decode other bytes (the plain encoding of Name) into it
 	Idx  int    `json:"idx"`
 	Name string `json:"name"`
 }
@@ -362,7 +362,7 @@ type c19Seq struct {
 }
 
 var c19seq = newChk("C19", "edit-sequences",
-	"a label set parsed from generated (compressed) bytes, then 2..5 edits of its exported name list (in-place element assignment, case-only change, slice replacement, append, delete, restoring the original names) with an encoding after EVERY edit: each encoding must decode (independent reader) to exactly the names the set holds at that moment, and Length() must agree; non-trivial = ≥2 edits that change the list; distinct by case hash",
+	"a label set parsed from generated (compressed) bytes, then 2..5 edits of its exported name list (in-place element assignment, case-only change, slice replacement, append, delete, restoring the original names, decoding the original or other bytes into the same object again) with an encoding after EVERY edit: each encoding must decode (independent reader) to exactly the names the set holds at that moment, and Length() must agree; non-trivial = ≥2 edits that change the list; distinct by case hash",
 	func(rec *obs.Rec, c c19Seq) *obs.Fail {
 		l, err := rfc1035label.FromBytes(append([]byte{}, c.Wire...))
 		if err != nil {
@@ -405,6 +405,29 @@ var c19seq = newChk("C19", "edit-sequences",
 			case 5:
 				l.Labels = append([]string{}, orig...)
 				cur = append([]string{}, orig...)
+			case 6, 7:
+				// the object is used as a decoder again (a long-lived option object fed the next datagram): from then
+				// on it holds what those bytes say, whatever it held and however it was edited before
+				w := append([]byte{}, c.Wire...)
+				want := orig
+				if st.Kind == 7 {
+					w = nil
+					for _, lab := range strings.Split(st.Name, ".") {
+						w = append(append(w, byte(len(lab))), lab...)
+					}
+					w = append(w, 0)
+					want = []string{st.Name}
+				}
+				if err := l.FromBytes(w); err != nil {
+					return obs.Failf("C19/edit-sequence/redecode-rejected", "bytes accepted before are accepted again", "%v for %x", err, clipb(w))
+				}
+				cur = append([]string{}, want...)
+				if !namesEq(l.Labels, cur) {
+					return obs.Failf("C19/edit-sequence/redecode-stale", fmt.Sprintf("after decoding %x into the edited object it holds %q", clipb(w), cur), "%q", l.Labels)
+				}
+				if out := l.ToBytes(); !bytes.Equal(out, w) {
+					return obs.Failf("C19/edit-sequence/redecode-not-verbatim", fmt.Sprintf("a set just parsed from %x re-encodes to exactly those bytes", clipb(w)), "%x", clipb(out))
+				}
 			}
 			if !namesEq(before, cur) {
 				changes++
@@ -432,7 +455,7 @@ func TestC19_EditSequencesRapid(t *testing.T) {
 	c19seq.rapidCheck(t, rapid.Custom(func(rt *rapid.T) c19Seq {
 		c := c19Seq{Wire: gen.LabelWireNoDots(false).Draw(rt, "wire")}
 		for k := rapid.IntRange(2, 5).Draw(rt, "nsteps"); k > 0; k-- {
-			c.Steps = append(c.Steps, c19Step{Kind: rapid.SampledFrom([]int{0, 0, 1, 2, 3, 4, 5}).Draw(rt, "kind"), Idx: rapid.IntRange(0, 7).Draw(rt, "idx"), Name: gen.Name().Draw(rt, "name")})
+			c.Steps = append(c.Steps, c19Step{Kind: rapid.SampledFrom([]int{0, 0, 1, 2, 3, 4, 5, 6, 6, 7}).Draw(rt, "kind"), Idx: rapid.IntRange(0, 7).Draw(rt, "idx"), Name: gen.Name().Draw(rt, "name")})
 		}
 		return c
 	}))
